@@ -10,5 +10,5 @@ for id in "$@"; do
   out=$(bin/falcosim check $id --tier $TIER 2>&1)
   code=$?
   echo "CHECK $id tier=$TIER exit=$code"
-  echo "$out" | grep -E "^falcosim: C[0-9]+/|^VIOLATION|KNOWN|race mode|quick:|thorough:" | cut -c1-260 | head -12
+  echo "$out" | grep -E "^falcosim: (netns:)?C[0-9]+/|^VIOLATION|KNOWN|race mode|quick:|thorough:" | cut -c1-260 | head -12
 done
